@@ -2,6 +2,8 @@
 // `it.next()` yields the items of a fixed sequence in order; what that sequence is for a given collection, and what
 // pushing an item into a collection under construction does, is stated per collection type by the unit's prelude through
 // the three traits below (trait-level spec functions, so that callers see them through static dispatch).
+/// language invariant: the length of a `Vec` is a `usize`
+pub broadcast axiom fn axiom_vec_len_bound<T>(v: &Vec<T>) ensures #[trigger] v@.len() <= usize::MAX;
 pub struct VxIter<T> { pub items: Ghost<Seq<T>>, pub pos: Ghost<int> }
 impl<T> VxIter<T> {
     pub open spec fn wf(&self) -> bool { 0 <= self.pos@ <= self.items@.len() }
